@@ -38,6 +38,22 @@ LIST_TRIPLES = [[1, 101, 2], [1, 102, 8], [8, 101, 5], [8, 102, 103]]          #
 SEQ_TRIPLES = [[12, 104, 105], [12, 106, 1], [12, 107, 10], [12, 108, 9]]       # <c> a rdf:Seq ; rdf:_1 <a> ; rdf:_2 "x"
 
 
+# small documents a FROM / FROM NAMED clause can dereference (SPARQL_LOAD_GRAPHS is left at its default, on)
+DOCS = os.path.join(BUILD, "c13_docs")
+DOC_TTL = os.path.join(DOCS, "doc1.ttl")
+DOC_NT = os.path.join(DOCS, "doc2.nt")
+F_TTL, F_NT = "file://" + DOC_TTL, "file://" + DOC_NT
+
+
+def write_docs():
+    os.makedirs(DOCS, exist_ok=True)
+    for path, text in ((DOC_TTL, "@prefix e: <http://e/> .\ne:a e:q e:c ; e:p e:b .\n_:x e:p \"doc\" .\n"),
+                       (DOC_NT, "<http://e/c> <http://e/p> <http://e/a> .\n<http://e/c> <http://e/q> \"nt\" .\n")):
+        if not os.path.exists(path) or open(path).read() != text:
+            with open(path, "w") as f:
+                f.write(text)
+
+
 def xterm(i):
     return EXTRA[i] if i > 100 else term(i)
 
@@ -443,6 +459,22 @@ READS = [
     ("ds_remove_nothing_free_reads", lambda g, w: (g.get_context(G1) == g.get_context(G1), g.get_context(G1) == g.get_context(GRAPH_POOL[2]), len(g.get_context(URIRef("urn:nowhere"))))),
     ("ds_foreign_triples_choices", lambda g, w: list(g.triples_choices(([A, C_], Q, None), context=_foreign(g, w)))),
     ("ds_foreign_triples_path", lambda g, w: list(g.triples((None, Q * "*", None), context=_foreign(g, w)))),
+    # --- dataset clauses that DEREFERENCE a document (file:// under build/), SPARQL_LOAD_GRAPHS at its default
+    ("q_from_file_select", query("SELECT ?s ?p ?o FROM <%s> WHERE { ?s ?p ?o }" % F_TTL)),
+    ("q_from_file_nt_select", query("SELECT ?s ?o FROM <%s> WHERE { ?s <http://e/p> ?o }" % F_NT)),
+    ("q_from_file_ask", query("ASK FROM <%s> { <http://e/a> <http://e/q> <http://e/c> }" % F_TTL)),
+    ("q_from_file_construct", query("CONSTRUCT { ?o <http://e/r> ?s } FROM <%s> WHERE { ?s <http://e/q> ?o }" % F_TTL)),
+    ("q_from_file_describe", query("DESCRIBE <http://e/c> FROM <%s>" % F_NT)),
+    ("q_from_two_files", query("SELECT ?s ?o FROM <%s> FROM <%s> WHERE { ?s <http://e/p> ?o }" % (F_TTL, F_NT))),
+    ("q_from_file_and_named_file", query("SELECT ?g ?s ?x FROM <%s> FROM NAMED <%s> WHERE { ?s <http://e/q> ?o OPTIONAL { GRAPH ?g { ?o ?q ?x } } }" % (F_TTL, F_NT))),
+    ("q_from_named_file_only", query("SELECT ?g ?s WHERE { GRAPH ?g { ?s ?p ?o } }".replace("WHERE", "FROM NAMED <%s> WHERE" % F_NT))),
+    ("q_from_file_and_known_graph", query("SELECT ?s ?o FROM <urn:g:1> FROM <%s> WHERE { ?s ?p ?o }" % F_NT)),
+    ("q_from_known_named_file", query("SELECT ?g ?o FROM <urn:g:1> FROM NAMED <%s> WHERE { GRAPH ?g { <http://e/c> ?p ?o } }" % F_NT)),
+    # --- RDF Patch in diff mode against a TARGET dataset whose set of graphs differs (both datasets are watched)
+    ("ser_patch_target_persistent", lambda g, w: g.serialize(format="patch", target=w.target)),
+    ("ser_patch_target_reverse", lambda g, w: w.target.serialize(format="patch", target=g) if isinstance(g, ConjunctiveGraph) else g.serialize(format="patch", target=w.target)),
+    ("ser_patch_target_self", lambda g, w: g.serialize(format="patch", target=g)),
+    ("ser_patch_target_empty", lambda g, w: g.serialize(format="patch", target=Dataset())),
     # --- reads that are handed a Graph object backed by ANOTHER store (F19, repaired: they no longer copy it in)
     ("ds_triples_foreign_ctx", lambda g, w: list(g.triples((None, None, None), context=_foreign(g, w)))),
     ("ds_in_foreign_quad", lambda g, w: (C_, Q, C_, _foreign(g, w)) in g),
@@ -458,6 +490,20 @@ class PWorld(World):
     def __init__(self, is_ds, du):
         super().__init__(is_ds, [], default_union=du)
         self.du = du
+        # a second dataset, with a different set of graphs (IRI-named, bnode-named, an empty known one): reads that take
+        # another dataset (patch target=) must leave it alone too
+        self.target = Dataset()
+        self.target.add((A, P, B, GRAPH_POOL[1]))
+        self.target.add((C_, Q, Literal("x"), GRAPH_POOL[3]))
+        self.target.add((A, Q, Literal("t")))
+        self.target.graph(GRAPH_POOL[4])
+        self.target.graph(URIRef("urn:only-in-target"))
+
+    def others(self):
+        """state of everything else a read may be handed: the target dataset (quads and graph names, off its store)"""
+        st = self.target.store
+        quads = sorted(repr((s, p, o, sorted(repr(c.identifier) for c in cs))) for (s, p, o), cs in st.triples((None, None, None), None))
+        return (quads, sorted(repr(c.identifier) for c in st.contexts() if c.identifier != rdflib.graph.DATASET_DEFAULT_GRAPH_ID))
 
     def other_ds(self):
         o = Dataset()
@@ -574,7 +620,8 @@ class C13(Suite):
         return {"ds": is_ds, "du": du, "build": build, "reads": reads}
 
     def run_impl(self, case):
-        rdflib.plugins.sparql.SPARQL_LOAD_GRAPHS = False
+        rdflib.plugins.sparql.SPARQL_LOAD_GRAPHS = True  # the library's default: FROM <doc> dereferences (file:// only here)
+        write_docs()
         w = PWorld(case["ds"], case["du"])
         for op in case["build"]:
             if op[0] == "add":
@@ -585,12 +632,14 @@ class C13(Suite):
         obs = [w.snap(), []]
         for name, tgt in case["reads"]:
             g = w.d if tgt == "ds" else Graph(w.store, identifier=w.name(tgt))
+            o0 = w.others()
             a1 = run_read(w, g, name)
             mid = w.snap()
             a2 = run_read(w, g, name)
             after = w.snap()
-            # the second call must not write either; its snapshot is folded into the flag
-            obs[1].append([mid, bool(same_answer(a1, a2) and after == mid)])
+            # the second call must not write either, and neither call may touch the OTHER dataset it was handed
+            # (patch target=): both are folded into the flag
+            obs[1].append([mid, bool(same_answer(a1, a2) and after == mid and w.others() == o0)])
         return obs
 
     def on_timeout(self, case):
@@ -676,7 +725,8 @@ TRUSTED = [
     "construction: only the snapshot runs speak for them",
 ]
 ASSUMPTIONS = [
-    "store is rdflib.plugins.stores.memory.Memory; SPARQL_LOAD_GRAPHS is off (FROM clauses never fetch)",
+    "store is rdflib.plugins.stores.memory.Memory; SPARQL_LOAD_GRAPHS is at its default (on): FROM / FROM NAMED dereference "
+    "file:// documents written by the harness under build/c13_docs; the urn: names of the pool cannot be fetched",
     "queries using RAND/NOW/UUID/BNODE() are not issued (outside the repeatability clause)",
     "namespace bindings are not part of the observed state (serialisers and qname() may bind prefixes)",
 ]
